@@ -203,6 +203,12 @@ def run(ctx: Ctx):
         for k, ops in enumerate(rig.exhaustive(rig.health_alphabet(), depth)):
             yield f"exhH{depth}:{k}", {"surface": ("fs", "action", "node")[k % 3], "restore_duration": 1,
                                       "ops": [["cfile", "fa", "a", False]] + ops}
+        # folder delete / restore against a running (or frozen) restore countdown, default duration 3
+        depth = ctx.scale(5, 7)
+        ctx.count(f"exhaustive:R:alphabet={len(rig.folder_restore_alphabet())}:depth={depth}", len(rig.folder_restore_alphabet()) ** depth)
+        for k, ops in enumerate(rig.exhaustive(rig.folder_restore_alphabet(), depth)):
+            yield f"exhR{depth}:{k}", {"surface": ("fs", "node")[k % 2], "restore_duration": 3 if k % 4 < 2 else 2,
+                                      "ops": [["cfile", "fa", "a", False]] + ops}
         rng5 = ctx.rng.fork("fs-health")
         for k in range(ctx.scale(600, 10000)):
             yield f"health:{k}", rig.gen_health_case(rng5, max_ops=ctx.scale(24, 40))
